@@ -91,3 +91,15 @@ Theorem C16_pickle_roundtrip : forall f,
   pframe_content (M_unpickle f) = pframe_content f /\ all_readonly (M_unpickle f) = true.
 Proof. exact pickle_roundtrip. Qed.
 Print Assumptions C16_pickle_roundtrip.
+
+(* For ANY well-formed StoreFilter (each marker written is in its own decoding set and in none tested before it) the
+   markers NaN / None / +inf / -inf decode from their own text and are good cells of an object column; and the
+   defaults regenerated from store_filter.py are well formed. *)
+Theorem C16_markers_decode : forall flt v, filter_wf flt = true -> is_marker v = true ->
+  decode_str flt (st (render_val flt v)) = v /\ cell_ok flt KObj v = true /\ is_sentinel flt (st (render_val flt v)) = true.
+Proof. exact markers_decode. Qed.
+Print Assumptions C16_markers_decode.
+
+Theorem C16_default_filter_wf : filter_wf filter_default = true.
+Proof. exact default_filter_wf. Qed.
+Print Assumptions C16_default_filter_wf.
